@@ -56,7 +56,7 @@ def gen_obligation_for(tols):
         name = p['name']
         if not e['compiled']:
             return None, e['why']
-        if not engine.modelled_H(p):
+        if not engine.modelled_C(p):
             return None, 'engine class %s%s not in the proved fragment' % (p['eclass'], ' with middle timings' if p['middle'] else '')
         if m['status'].get('encode') != 'ok':
             return None, m['status'].get('encode')
@@ -207,7 +207,14 @@ def search(ctx, protos, per, exhaustive_limit):
                     kind = 'reports other parameters'
                     detail = dict(mismatch=bad, frames=c.normalized_rlc[:1])
             hits[name] = True
-            ctx.report(name, kind, dict(a), dict(protocol=name, params=a, **detail))
+            # signature of the failure: the error that rejects the frame / the parameters that come back wrong
+            if kind == 'undecodable':
+                sg = 'err:' + str(detail.get('error'))
+            elif kind == 'reports other parameters':
+                sg = 'wrong:' + ','.join(sorted({str(b[0]) for b in detail.get('mismatch', [])}))
+            else:
+                sg = kind
+            ctx.report(name, kind, dict(a, sig=sg), dict(protocol=name, params=a, **detail))
     return hits
 
 
